@@ -9,12 +9,11 @@ from common import fb, close, canon_hash, unbits
 ID = "C11"
 SECTIONS = ["ops"]
 LEAN_MODULES = ["QExPy.Props.C11"]
-THEOREMS = ["QExPy.Arr.C11_fn_length"]
-THEOREMS_PLANNED = ["QExPy.Arr.C11_length", "QExPy.Arr.C11_elem", "QExPy.Arr.C11_elem_value_error",
-            "QExPy.Arr.C11_broadcast_right", "QExPy.Arr.C11_broadcast_left",
-            "QExPy.Arr.C11_kind", "QExPy.Arr.C11_plain_in_plain_out",
-            "QExPy.Arr.C11_plain_in_plain_out_log", "QExPy.Arr.C11_fn_length",
-            "QExPy.Arr.C11_tree", "QExPy.Arr.C11_tree_length", "QExPy.Arr.C11_same_array_cancels"]
+THEOREMS = ["QExPy.Arr.C11_length", "QExPy.Arr.C11_elem", "QExPy.Arr.C11_elem_value_error",
+            "QExPy.Arr.C11_kind", "QExPy.Arr.C11_broadcast_right", "QExPy.Arr.C11_broadcast_left",
+            "QExPy.Arr.C11_fn_length", "QExPy.Arr.C11_plain_in_plain_out",
+            "QExPy.Arr.C11_plain_in_plain_out_log", "QExPy.Arr.C11_tree", "QExPy.Arr.C11_tree_length",
+            "QExPy.Arr.C11_same_array_cancels"]
 RULE = ("every binary operator (+ - * / **) with a MeasurementArray on either side and, on the other "
         "side, int / float / measurement / derived quantity / (value,error) pair / list of floats / "
         "list of ints / float ndarray / int ndarray / another MeasurementArray / the same array / a "
